@@ -541,4 +541,56 @@ theorem C13_known_empty_year_accepted :
   refine ⟨rfl, ?_⟩
   decide
 
+/-! ### injectivity: consequences of the round trips (dates as map keys, compared by rendering) -/
+
+/-- **game-format text is injective on valid dates** — corollary of `C13_fmt_parse_date`: two valid
+dates rendered (same `wide` flag) to the same text are the same date, component by component. -/
+theorem C13_fmt_injective (wide : Bool) (y y' : Int) (m d m' d' : Nat)
+    (hy : inI16 y = true) (hv : ValidMd m d) (hy' : inI16 y' = true) (hv' : ValidMd m' d')
+    (txt : List UInt8)
+    (h : format (mkDate y m d).raw (if wide then .dotWide else .dotShort) = .ok txt)
+    (h' : format (mkDate y' m' d').raw (if wide then .dotWide else .dotShort) = .ok txt) :
+    mkDate y m d = mkDate y' m' d' ∧ y = y' ∧ m = m' ∧ d = d' := by
+  obtain ⟨t, ht, hp⟩ := C13_fmt_parse_date wide y m d hy hv
+  obtain ⟨t', ht', hp'⟩ := C13_fmt_parse_date wide y' m' d' hy' hv'
+  rw [h] at ht; rw [h'] at ht'
+  cases ht; cases ht'
+  rw [hp] at hp'
+  have e : mkDate y m d = mkDate y' m' d' := by injection hp'
+  refine ⟨e, ?_, ?_, ?_⟩
+  · have := congrArg Date.year e; rwa [Date.year_mk, Date.year_mk] at this
+  · have := congrArg Date.month e; rwa [Date.month_mk y hv, Date.month_mk y' hv'] at this
+  · have := congrArg Date.day e; rwa [Date.day_mk y hv, Date.day_mk y' hv'] at this
+
+/-- **the binary encoding is injective on dates of the binary range** — corollary of
+`C13_bin_roundtrip_date`. -/
+theorem C13_bin_injective_date (y y' : Int) (m d m' d' : Nat) (x x' : Date.Date)
+    (hy : inI16 y = true) (h5000 : -5000 ≤ y) (hx : Date.fromYmdOpt y m d = .ok x)
+    (hy' : inI16 y' = true) (h5000' : -5000 ≤ y') (hx' : Date.fromYmdOpt y' m' d' = .ok x')
+    (b : Int) (h : x.toBinary = .ok b) (h' : x'.toBinary = .ok b) : x = x' := by
+  obtain ⟨c, hc, -, hf⟩ := C13_bin_roundtrip_date y m d x hy h5000 hx
+  obtain ⟨c', hc', -, hf'⟩ := C13_bin_roundtrip_date y' m' d' x' hy' h5000' hx'
+  rw [h] at hc; rw [h'] at hc'
+  cases hc; cases hc'
+  rw [hf] at hf'
+  injection hf'
+
+/-- **the binary encoding is injective on date-hours of the binary range** — corollary of
+`C13_bin_roundtrip_datehour`. -/
+theorem C13_bin_injective_datehour (y y' : Int) (m d h m' d' h' : Nat) (x x' : DateHour)
+    (hy : inI16 y = true) (h5000 : -5000 ≤ y) (hx : DateHour.fromYmdhOpt y m d h = .ok x)
+    (hy' : inI16 y' = true) (h5000' : -5000 ≤ y') (hx' : DateHour.fromYmdhOpt y' m' d' h' = .ok x')
+    (b : Int) (hb : x.toBinary = .ok b) (hb' : x'.toBinary = .ok b) : x = x' := by
+  obtain ⟨c, hc, -, hf⟩ := C13_bin_roundtrip_datehour y m d h x hy h5000 hx
+  obtain ⟨c', hc', -, hf'⟩ := C13_bin_roundtrip_datehour y' m' d' h' x' hy' h5000' hx'
+  rw [hb] at hc; rw [hb'] at hc'
+  cases hc; cases hc'
+  rw [hf] at hf'
+  injection hf'
+
+/-- concrete: distinct valid dates have distinct renderings and distinct binary encodings -/
+example : format (mkDate 1444 11 11).raw .dotShort ≠ format (mkDate 1444 11 12).raw .dotShort ∧
+    (mkDate 1444 11 11).toBinary ≠ (mkDate 1444 11 12).toBinary ∧
+    (mkDateHour 1936 1 1 11).toBinary ≠ (mkDateHour 1936 1 1 12).toBinary := by decide
+
 end Jomini.Props.C13
